@@ -1942,13 +1942,18 @@ class Translator:
         fi.text = '%s\ndef %s%s : %s :=\n%s\n' % (doc, name, sig, rt, indent(body))
         fi.lean_name = name
 
-def translate_crate(repo):
+def translate_crate(repo, exclude=()):
     crate = Crate(repo)
     T = Translator(crate); T.order = []; T.used_consts = {}
     report = {'translated': [], 'untranslated': {}, 'parse_errors': crate.parse_errors}
+    for k, fi in crate.fns.items():
+        if '%s.%s' % k in exclude:
+            fi.state = 'failed'; fi.error = 'its translation was rejected by Lean'
+            report['untranslated']['%s.%s' % k] = fi.error
     for k, fi in sorted(crate.fns.items(), key=lambda kv: (kv[1].path, kv[1].meta['line'])):
         if fi.name in SKIP_FNS or fi.meta.get('cfg') == ('test',): continue
         if fi.trait in ('Serializable', 'Debug', 'Display'): continue
+        if fi.state == 'failed' and '%s.%s' % k in exclude: continue
         try:
             T.ensure(fi)
         except Unsupported as ex:
@@ -1978,6 +1983,22 @@ def translate_crate(repo):
     out.append('end Sucds.GenFn')
     return '\n'.join(out) + '\n', report
 
+def lean_rejects(outp):
+    """names of generated definitions that Lean does not accept (empty when the file checks)"""
+    import subprocess
+    lean_dir = os.path.dirname(os.path.dirname(os.path.dirname(os.path.abspath(outp))))
+    r = subprocess.run(['lake', 'env', 'lean', os.path.abspath(outp)], cwd=lean_dir, capture_output=True, text=True)
+    if r.returncode == 0: return []
+    lines = open(outp).read().split('\n')
+    starts = [(i + 1, m.group(1)) for i, l in enumerate(lines) for m in [re.match(r'def (\S+)', l)] if m]
+    bad = []
+    for m in re.finditer(r'Fns\.lean:(\d+):\d+: error', r.stdout + r.stderr):
+        ln = int(m.group(1)); name = None
+        for st, n in starts:
+            if st <= ln: name = n
+        if name and name not in bad: bad.append(name)
+    return bad or ['<unlocated>']
+
 def main():
     repo = sys.argv[1]; outp = sys.argv[2]
     text, report = translate_crate(repo)
@@ -1985,6 +2006,17 @@ def main():
     if old != text:
         os.makedirs(os.path.dirname(outp), exist_ok=True)
         open(outp, 'w').write(text)
+        if '--validate' in sys.argv:
+            # a definition Lean rejects (a construct the translator mishandles) is dropped together with its dependents,
+            # so that one unusual function cannot take the other generated definitions down with it
+            exclude = set()
+            for _ in range(6):
+                bad = lean_rejects(outp)
+                if not bad or bad == ['<unlocated>']: break
+                exclude |= set(bad)
+                text, report = translate_crate(repo, exclude)
+                open(outp, 'w').write(text)
+            report['rejected_by_lean'] = sorted(exclude)
     if '--report' in sys.argv:
         json.dump(report, open(sys.argv[sys.argv.index('--report') + 1], 'w'), indent=1)
     print('gen_fns: %d functions translated, %d not translated%s' % (len(report['translated']), len(report['untranslated']),
